@@ -559,7 +559,7 @@ def cmp_flt(op, a, b):
     return cmp_num(op, a, b)
 
 
-QUIRKS = ("sentinel", "undef_quantifier", "int_loop_body", "dbl_lt_undef", "pct_double", "range_wrap", "str_signed_cmp")
+QUIRKS = ("sentinel", "undef_quantifier", "int_loop_body", "dbl_lt_undef", "range_wrap", "str_signed_cmp")
 
 
 class Eval:
@@ -621,13 +621,10 @@ class Eval:
         return t >= q[1]
 
     def pct(self, t, n, p):
+        """`P% of`: exact — t / n >= p / 100 (F44, the double-precision comparison, is repaired; its return is a violation)"""
         if p is None:
             return None
-        exact = t * 100 >= p * n
-        dbl = ((t / n) * 100) >= p
-        if exact != dbl:
-            self.events.add("pct_double")
-        return dbl if "pct_double" in self.q else exact
+        return t * 100 >= p * n
 
     def loop(self, q, items, body, vars_, curs, bool_body):
         """items: list of loop-variable values; curs: per item the for..of string (or None)"""
